@@ -26,6 +26,10 @@ func (e *Engine) loadSpecs(dir string) error {
 	e.specSigs = map[string]*specSig{}
 	var all strings.Builder
 	all.WriteString(e.constPrelude())
+	all.WriteString("; ---- constant tables read from source\n" + e.tableText)
+	if forms, err := readSexprs(e.tableText); err == nil {
+		e.recordSigs(forms)
+	}
 	for _, f := range files {
 		b, err := os.ReadFile(f)
 		if err != nil {
@@ -38,6 +42,14 @@ func (e *Engine) loadSpecs(dir string) error {
 		if err != nil {
 			return fmt.Errorf("%s: %v", f, err)
 		}
+		e.recordSigs(forms)
+	}
+	e.specText = all.String()
+	return nil
+}
+
+func (e *Engine) recordSigs(forms []interface{}) {
+	{
 		for _, fm := range forms {
 			l, ok := fm.([]interface{})
 			if !ok || len(l) < 4 {
@@ -61,8 +73,6 @@ func (e *Engine) loadSpecs(dir string) error {
 			e.specSigs[name] = sig
 		}
 	}
-	e.specText = all.String()
-	return nil
 }
 
 func readSexprs(s string) ([]interface{}, error) {
